@@ -17,8 +17,11 @@ VERIF = os.path.dirname(HERE)
 REPO = os.environ.get('VERIF_REPO', '/repo')
 LEAN_DIR = os.path.join(VERIF, 'lean')
 BUILD = os.path.join(VERIF, 'build')
-REPLAYS = os.path.join(VERIF, 'replays')
-EVIDENCE = os.path.join(VERIF, 'evidence')
+# VERIF_OUT redirects replays and evidence (used when the checks are run against a seeded variant of the
+# tree given by VERIF_REPO, so that the committed evidence of the real tree is not overwritten)
+_OUT = os.environ.get('VERIF_OUT', VERIF)
+REPLAYS = os.path.join(_OUT, 'replays')
+EVIDENCE = os.path.join(_OUT, 'evidence')
 NPROC = int(os.environ.get('VERIF_JOBS', str(os.cpu_count() or 8)))
 GUARD = 'TROMPELOEIL_VERIF'
 
@@ -233,13 +236,21 @@ def run_lines(cmd, lines, nbatch=None):
     return outs, errs
 
 
-def build_lean():
-    """lake build (library, property theorems, driver).  A failure is a failed proof obligation."""
+def build_lean(prop=None, lean_dir=None):
+    """lake build of the driver and of the property's theorem module (a failure is a failed proof
+    obligation).  Only the modules this property needs are built, so that a broken obligation of another
+    property does not take this check down with it."""
     t0 = time.time()
-    r = sh(['lake', 'build'], cwd=LEAN_DIR)
+    lean_dir = lean_dir or LEAN_DIR
+    if os.environ.get('VERIF_SKIP_LEAN') == '1' and lean_dir == LEAN_DIR:      # seeded-variant runs: the Lean side is unchanged
+        return os.path.join(LEAN_DIR, '.lake', 'build', 'bin', 'tmodel')
+    targets = ['tmodel']
+    if prop and os.path.exists(os.path.join(lean_dir, 'TrompModel', 'Props', prop + '.lean')):
+        targets.append('TrompModel.Props.' + prop)
+    r = sh(['lake', 'build'] + targets, cwd=lean_dir)
     if r.returncode != 0:
-        raise BuildError('lake build failed:\n' + (r.stdout + r.stderr)[-6000:])
-    exe = os.path.join(LEAN_DIR, '.lake', 'build', 'bin', 'tmodel')
+        raise BuildError('lake build %s failed:\n' % ' '.join(targets) + (r.stdout + r.stderr)[-6000:])
+    exe = os.path.join(lean_dir, '.lake', 'build', 'bin', 'tmodel')
     if time.time() - t0 > 5:
         log('[build] lake build %.0fs' % (time.time() - t0))
     return exe
@@ -259,9 +270,12 @@ def strip_comments(src):
     return src
 
 
-def lean_audit(prop):
+def lean_audit(prop, lean_dir=None):
     """-> dict(obligations, discharged, theorems=[(name, axioms)], problems=[...])"""
     problems = []
+    if os.environ.get('VERIF_SKIP_LEAN') == '1' and lean_dir is None:
+        return dict(obligations=0, discharged=0, theorems=[], problems=[])
+    LEAN_DIR = lean_dir or globals()['LEAN_DIR']
     for root, _, files in os.walk(LEAN_DIR):
         if '.lake' in root:
             continue
@@ -534,6 +548,8 @@ def _k_c13(op, e):
         sev, _, kind, rest = _rep_fields(e)
         if kind in ('stillalive', 'unexpected'):
             return 'report %s %s %s' % (sev, kind, rest)
+        if kind == 'seqmis':
+            return None                     # "sequence constraints aside": C05's business
         if op.split(' ')[0] in ('killw', 'releasemon', 'copyw', 'movew', 'assignw', 'monitor'):
             return 'report %s %s' % (sev, kind)
     return None
